@@ -384,6 +384,7 @@ class CookieJar(AbstractCookieJar):
                     self._expire_cookie(max_age_expiration, domain, path, name)
                 except ValueError:
                     cookie["max-age"] = ""
+                    self._expirations.pop((domain, path, name), None)
 
             elif expires := cookie["expires"]:
                 # 0 is a valid timestamp (the epoch), only None means unparsable
@@ -391,6 +392,11 @@ class CookieJar(AbstractCookieJar):
                     self._expire_cookie(expire_time, domain, path, name)
                 else:
                     cookie["expires"] = ""
+                    self._expirations.pop((domain, path, name), None)
+
+            else:
+                # A session cookie replaces the stored one: its deadline goes too
+                self._expirations.pop((domain, path, name), None)
 
             key = (domain, path)
             if self._cookies[key].get(name) != cookie:
